@@ -89,6 +89,8 @@ def check(ck, F, rule, prefixes, floor):
         if fn is None or "mir" not in fn:
             continue
         if flow.calls_new_function(F, fn):
+            for v in vars_:
+                ck.ok(rule, "%s#%s" % (fid, v), "not compared: the function now calls a helper that did not exist on the reference tree", nontrivial=False)
             continue
         cur = accumulators(fn)
         for v in vars_:
@@ -194,7 +196,11 @@ def check2(ck, F, rule, prefixes, floor):
         if fn is None or "mir" not in fn:
             continue
         cur = self_updates(fn)
-        if cur is None or flow.calls_new_function(F, fn):
+        if cur is None:
+            continue
+        if flow.calls_new_function(F, fn):
+            for v in vars_:
+                ck.ok(rule, "%s#%s" % (fid, v), "not compared: the function now calls a helper that did not exist on the reference tree", nontrivial=False)
             continue
         for v in vars_:
             key = "%s#%s" % (fid, v)
